@@ -1,6 +1,6 @@
 """C05 — copies are faithful and independent (DESIGN.md 7, C05)."""
 import coregen
-from coregen import gen_case, nontrivial as _nt, c_env, c_prog, c_obs, shrink_candidates
+from coregen import gen_case, nontrivial as _nt, c_env, c_prog, c_obs
 from common import cbool
 
 ID = 'C05'
@@ -27,6 +27,17 @@ def gen_cases(rng, tier):
         c = gen_case(rng, maxlen=rng.choice([3, 6, 10]))
         c['obs'] = ['copy']
         cases.append(c)
+    # programs with a relation to a GROUP of operations (MultiRelationLink, any relation type): specification only
+    for _ in range(30 if tier == 'quick' else 400):
+        c = gen_case(rng, maxlen=rng.choice([4, 6, 9]), depth=1)
+        tops = [i for i, x in enumerate(c['prog']) if x['t'] == 'leaf' and x['cls'] not in coregen.NO_REL_ARG]
+        for i in tops[2:]:
+            if rng.random() < 0.5:
+                members = sorted(rng.sample(range(i), rng.randint(1, min(3, i))))
+                c['prog'][i]['rel'] = ['multi', rng.choice('FSE'), members]
+        c['obs'] = ['copy']
+        c['spec_only'] = True
+        cases.append(c)
     return cases
 
 
@@ -35,6 +46,15 @@ IMPOSSIBLE = ("{| k_prog := []; k_env := mk_env 0 0 0 0 []; k_orig := Some {| o_
 
 
 def to_coq(c, o):
+    if c.get('spec_only'):
+        if 'error' in o:
+            return "(KSpecOnly None None None false false)"
+        return (f"(KSpecOnly {c_obs(o.get('orig'))} {c_obs(o.get('copy'))} {c_obs(o.get('nested'))} "
+                f"{cbool(o.get('copy_unchanged', True))} {cbool(o.get('orig_unchanged', True))})")
+    return f"(KCore {to_coq_core(c, o)})"
+
+
+def to_coq_core(c, o):
     if 'error' in o:
         return IMPOSSIBLE
     env, reg_ids = c_env(c)
@@ -59,3 +79,17 @@ def sample(c, o):
 LEVEL_TEXT = 'Coq theorems: the generated class table is faithful (every copy() transfers link and init fields: vm_compute over Gen/Classes.v); for every well-formed, fully listed graph the copy is the original renumbered in listing order (copy_iso), so listing, schedule, duration and channels are identical, internal relations are re-pointed, a copy of a copy is identical; the same for a circuit nested into an empty circuit. Independence of the two object graphs is an observation of the correspondence run (mutate one side, watch the other).'
 LEVEL_NOTE = 'Trusted: Coq kernel, translator (Gen/Classes.v), Core model tied by correspondence over every operation class. Graphs deeper than the 4999-level limit are outside the theorems. No axioms.'
 TECHNIQUE = 'Coq proof over an executable model + correspondence evaluated by vm_compute'
+
+
+def shrink_candidates(case):
+    for c in coregen.shrink_candidates(case):
+        if case.get('spec_only'):
+            # keep only candidates whose group relations still point at existing earlier entries
+            okc = True
+            for i, x in enumerate(c['prog']):
+                r = x.get('rel') if x['t'] == 'leaf' else None
+                if r and r[0] == 'multi' and (not r[2] or max(r[2]) >= i):
+                    okc = False
+            if not okc:
+                continue
+        yield c
